@@ -4,14 +4,15 @@ from lib import vlib
 from checks.common import conclude
 from checks import stunlib as S
 
-MODULE = "Nice.Props.C04"
+MODULE = "Nice.Props.C04Finish"   # re-exports Nice.Props.C04 and adds the finish/validate theorem
 THEOREMS = [f"Nice.Props.C04.{t}" for t in (
     "C04_success_needs_integrity", "C04_key_provenance", "C04_success_needs_fingerprint",
     "C04_response_needs_outstanding", "C04_response_at_most_once", "crc32_table_correct",
-    "validate_stages", "validate_frame")]
-# not proved in Lean: C04_finish_then_validate (every message the library finishes with a key validates
-# under it at a peer agent of the same compatibility) — decided by the tie only: the `valm` right after
-# every `fin <key>` in the library-built stream, model and implementation, plus finish_validate_oracle
+    "validate_stages", "validate_frame", "C04_finish_then_validate_partial")]
+# C04_finish_then_validate is proved in PARTIAL form (short-term credentials, no fingerprint: the MAC that
+# finish writes passes the M-I stage of validate, all four compatibility modes); the composition with the
+# other stages, LONG_TERM and FINGERPRINT variants are decided by the tie: the `valm` right after every
+# `fin <key>` in the library-built stream, model and implementation, plus finish_validate_oracle
 TRUSTED = [
     "Lean 4 kernel; axioms allowed: propext, Classical.choice, Quot.sound (audited by #print axioms on every run)",
     "hand-written model Nice/Model/Stun/Agent.lean of stun/stunagent.c + stunhmac.c (MAC framing, priv_trim_var), "
